@@ -835,7 +835,7 @@ func ruleC06_4(c *Ctx, r *Rep) {
 		for _, w := range tsel.Withs {
 			if w.Edge == "Subscriptions" && len(w.Nested) == 1 {
 				mi, ex, _ := c.matchAtoms(w.Nested[0].Where, []ap{{col: "deleted_at", ops: []string{"isnull"}}}, nil)
-				okW = len(mi) == 0 && len(ex) == 0
+				okW = len(mi) == 0 && len(ex) == 0 && len(w.Nested[0].SelCols) == 0
 			}
 		}
 		okT = okT && okW
